@@ -290,6 +290,7 @@ pub fn run(args: &Args, rep: &mut Report) {
     }
     let mut reported: std::collections::BTreeSet<String> = Default::default();
     for (label, ops, stream) in todo {
+      mark_current(&case_lines(&ops));
       // replayed / corpus cases run both ways of registering a `MultiDispatcher`
       let variants: Vec<Option<bool>> = if label.starts_with("gen:") { vec![None] } else { vec![Some(false), Some(true)] };
       for direct in variants {
